@@ -303,19 +303,35 @@ fn build_shape(rng: &mut Rng, s: &Shape) -> (Vec<u8>, Vec<Vec<u8>>) {
     let h256 = hex::encode(sha2::Sha256::digest(&hb));
     match s.dig {
         0 => sig.push((SIG_SHA256, 6, TData::Str(h256.into_bytes()))),
-        1 => sig.push((SIG_SHA256, 6, TData::Str(wrong_hex(&h256)))),
+        // a recorded digest that does not match: other digits, or the right digits cut short / extended / absent
+        1 => sig.push((SIG_SHA256, 6, TData::Str(match rng.below(6) {
+            0 => Vec::new(),
+            1 => h256.as_bytes()[..8].to_vec(),
+            2 => h256.as_bytes()[..63].to_vec(),
+            3 => format!("{}00", h256).into_bytes(),
+            _ => wrong_hex(&h256),
+        }))),
         3 => sig.push((SIG_SHA256, 7, TData::Bytes(sha2::Sha256::digest(&hb).to_vec()))),
         _ => {}
     }
     match s.md5 {
         1 => sig.push((SIG_MD5, 7, TData::Bytes(md5::Md5::digest(&all).to_vec()))),
-        2 => sig.push((SIG_MD5, 7, TData::Bytes(vec![0; 16]))),
+        2 => sig.push((SIG_MD5, 7, TData::Bytes(match rng.below(4) {
+            0 => md5::Md5::digest(&all)[..15].to_vec(),
+            1 => md5::Md5::digest(&all)[..1].to_vec(),
+            _ => vec![0; 16],
+        }))),
         _ => {}
     }
     let h1 = hex::encode(sha1::Sha1::digest(&hb));
     match s.sha1 {
         1 => sig.push((SIG_SHA1, 6, TData::Str(h1.into_bytes()))),
-        2 => sig.push((SIG_SHA1, 6, TData::Str(wrong_hex(&h1)))),
+        2 => sig.push((SIG_SHA1, 6, TData::Str(match rng.below(5) {
+            0 => Vec::new(),
+            1 => h1.as_bytes()[..39].to_vec(),
+            2 => h1.as_bytes()[..2].to_vec(),
+            _ => wrong_hex(&h1),
+        }))),
         _ => {}
     }
     if s.extra {
